@@ -166,7 +166,7 @@ func main() {
 	if os.Getenv("VERIF_C08_NOSTD") != "1" {
 		stdSweep(rep)
 	}
-	if lib.Thorough() || os.Getenv("VERIF_C08_WRAPS") == "1" {
+	if lib.Thorough() || lib.ProofBroken() || os.Getenv("VERIF_C08_WRAPS") == "1" {
 		sweepWraps(rep)
 	}
 
